@@ -188,6 +188,7 @@ func TestMetadataMutations(t *testing.T) {
 
 // Defaults: no chunks at all.
 func TestDefaults(t *testing.T) {
+	harness.OnlyFirstShard(t)
 	st := harness.Counter("defaults", "absent chunks give the documented defaults (-32,-32,32,32 and 64 opaque blacks); palette with N+1 entries is followed by opaque black")
 	b := []byte{0x89, 'I', 'V', 'G', 0x00}
 	pal := ops.DefaultPalette()
